@@ -33,7 +33,7 @@ const CONTEXTS = [
 
 module.exports = mk({
   id: 'C08',
-  families: ['A', 'B', 'C', 'G', 'M', 'S', 'T', 'H', 'Q', 'R'],
+  families: ['A', 'B', 'C', 'G', 'M', 'S', 'T', 'H', 'Q', 'R', 'N', 'L'],
   familyOpts: (tier) => ({ B: { k: tier === 'thorough' ? 3 : 2 } }),
   corpus: { configs: ['FULL', 'COMMENTS', 'METHODS_ONLY'], quickLimit: 80 },
   extra: async (tier) => {
